@@ -40,6 +40,7 @@ static int max_depth_done, max_ndepth_done;
 static int max_level_seen;
 static int n_plan_items;
 static int default_universe;
+static int n_hist_samples;
 static int stop_now;
 static vh_set_t seen, layout_seen, cursor_seen;
 
@@ -654,6 +655,20 @@ explore(int depth, int dedup) {
         h.ops[h.n++] = alpha[a];
         announce(&h);
         run_exec(&x, &h, !shared || drv.shard == 0 || 1);
+        if (drv.shard == 0 && n_hist_samples < 4 && h.n >= 2 && (n_exec % 37) == 5) {
+          /* an actually executed history, written out for the evidence */
+          vh_buf_t sb, hb2;
+          char ct[300];
+          vb_init(&sb); vb_init(&hb2);
+          khist_print(pfx, npfx, &hb2);
+          if (npfx) vb_printf(&hb2, " ");
+          khist_print(h.ops, h.n, &hb2);
+          kcfg_print(&cfg, ct, sizeof(ct));
+          vb_printf(&sb, "{\"history\":\"%s\",\"cfg\":\"%s\",\"held\":\"oracle ok=%d\"}", hb2.p ? hb2.p : "", ct, x.ok);
+          drv_sample(sb.p);
+          vb_free(&sb); vb_free(&hb2);
+          n_hist_samples++;
+        }
         if (shared && drv.shard != 0) {
           n_exec--; /* counted by shard 0 only */
         } else {
